@@ -124,10 +124,14 @@ theorem addGate_fields {c c' : Circuit} {g : Gate} (h : c.addGate g = .ok c') :
 theorem labels_append (gs : List Gate) (g : Gate) : (gs ++ [g]).map (·.label) = gs.map (·.label) ++ [g.label] := by
   simp
 
-/-- **`add_gate` / `emplace_gate` keep the invariant** -/
-theorem addGate_wfs {c c' : Circuit} {g : Gate} (hw : WFS c) (hgi : g.ty = INPUT → g.ops = [])
-    (h : c.addGate g = .ok c') : WFS c' := by
-  obtain ⟨hfresh, hops, hg, hi, ho, hb, hu⟩ := addGate_fields h
+/-- the invariant is kept by any step with the field-level effect of `add_gate` -/
+theorem wfs_of_addFields {c c' : Circuit} {g : Gate} (hw : WFS c) (hgi : g.ty = INPUT → g.ops = [])
+    (hf : g.label ∉ c.labels ∧ (∀ o ∈ g.ops, o ∈ c.labels) ∧
+      c'.gates = c.gates ++ [g] ∧
+      c'.inputs = (if g.ty = INPUT then c.inputs ++ [g.label] else c.inputs) ∧
+      c'.outputs = c.outputs ∧ c'.blocks = c.blocks ∧
+      (∀ l, c'.usersOf l = c.usersOf l ++ List.replicate (g.ops.count l) g.label)) : WFS c' := by
+  obtain ⟨hfresh, hops, hg, hi, ho, hb, hu⟩ := hf
   have hlab : c'.labels = c.labels ++ [g.label] := by unfold labels; rw [hg]; simp
   have hmem : ∀ x, x ∈ c'.gates ↔ x ∈ c.gates ∨ x = g := by intro x; rw [hg]; simp
   refine ⟨?_, ?_, ?_, ?_, ?_, ?_, ?_, ?_, ?_, ?_⟩
@@ -203,6 +207,11 @@ theorem addGate_wfs {c c' : Circuit} {g : Gate} (hw : WFS c) (hgi : g.ty = INPUT
     rcases (hmem x).mp hx with hx | rfl
     · exact hw.inputOps x hx ht
     · exact hgi ht
+
+
+/-- **`add_gate` / `emplace_gate` keep the invariant** -/
+theorem addGate_wfs {c c' : Circuit} {g : Gate} (hw : WFS c) (hgi : g.ty = INPUT → g.ops = [])
+    (h : c.addGate g = .ok c') : WFS c' := wfs_of_addFields hw hgi (addGate_fields h)
 
 /-! ### interface setters -/
 
